@@ -21,6 +21,7 @@ import (
 	"io/ioutil"
 	"math/rand"
 	"os"
+	"time"
 
 	"github.com/tikv/pd/server"
 	"github.com/tikv/pd/server/config"
@@ -45,14 +46,22 @@ func phaseA(r *ev.Run, rng *rand.Rand) {
 		r.Inconclusive("CreateServer: %v", err)
 		return
 	}
-	e := &env{r: r, s: s, kv: kvx.New(kv.NewMemoryKV()), phase: "direct", seen: map[string]bool{}}
+	e := &env{r: r, s: s, kv: kvx.New(kv.NewMemoryKV()), phase: "direct", seen: map[string]bool{}, midWait: 60 * time.Millisecond, blockedWait: 60 * time.Millisecond, settle: 15 * time.Millisecond}
 	e.store = core.NewStorage(e.kv)
 	s.SetStorage(e.store)
 	g := &gen{rng: rng}
 
+	if !e.consistent() {
+		r.Inconclusive("direct phase: the first update was not stored")
+		return
+	}
 	n := r.Pick(2000, 14000)
 	for i := 0; i < n; i++ {
 		e.threeWays(g.next(s))
+		if i%89 == 88 {
+			// the long-lived serving options are reloaded in place, as a re-campaign does
+			e.reloadServing()
+		}
 	}
 	r.Count("random_cases_direct", int64(n))
 
@@ -70,6 +79,8 @@ func phaseA(r *ev.Run, rng *rand.Rand) {
 		e.threeWays(d.mk())
 		r.Count("directed_cases", 1)
 	}
+	e.getEditSet()
+	e.concurrentDirect(g, r.Pick(12, 100))
 }
 
 type directedCase struct {
@@ -164,6 +175,9 @@ func phaseB(r *ev.Run, rng *rand.Rand) {
 	defer ru.close()
 	g := &gen{rng: rng}
 	ru.runPhase(g, r.Pick(8, 40), r.Pick(45, 60))
+	if ru.ready() {
+		ru.concurrentRunning(r.Thorough())
+	}
 }
 
 func main() {
